@@ -345,3 +345,44 @@ def panic_sites(fn, include_overflow=True):
         elif call_is(c, INDEX_CALLEES):
             yield dict(kind='call:index', bb=c.bb, line=c.line, ops=c.args, call=c, exp=c.exp,
                        detail=c.callee)
+
+
+def closure_creation(fb, closure_fn):
+    """(parent Fn, bb, operands) of the aggregate that creates this closure, or None"""
+    par = closure_fn.o.get('parent')
+    pf = fb.fn(par) if par else None
+    if pf is None or not pf.has_mir():
+        return None
+    for i, b in enumerate(pf.bbs):
+        if b.get('c'):
+            continue
+        for st in b['s']:
+            if st[0] == '=' and st[2][0] == 'agg' and st[2][1] == 'closure' and st[2][2] == closure_fn.path:
+                return (pf, i, st[2][4])
+    return None
+
+
+def outer_origins(fb, f, op, depth=4):
+    """origins of an operand with closure upvars replaced by the origins of the captured operand in the enclosing
+    function(s); returns (set of origins, outermost Fn the origins refer to)"""
+    og = f.origins(op)
+    if depth <= 0 or '{closure#' not in f.path:
+        return og, f
+    ups = [o for o in og if o[0] == 'upvar']
+    if not ups:
+        return og, f
+    cc = closure_creation(fb, f)
+    if cc is None:
+        return og, f
+    pf, bb, operands = cc
+    out = set(o for o in og if o[0] != 'upvar')
+    outer = pf
+    for o in ups:
+        try:
+            idx = int(o[1][0])
+        except Exception:
+            continue
+        if idx < len(operands):
+            sub, outer = outer_origins(fb, pf, operands[idx], depth - 1)
+            out |= sub
+    return out, outer
